@@ -101,6 +101,11 @@ fn mutate(rng: &mut Rng, st: &mut State, earlier: &[State]) -> &'static str {
         2 | 3 if !files.is_empty() => {
             let p = rng.pick(&files).clone();
             let exec = matches!(st[&p], Ent::File { exec: true, .. });
+            // content and mode change in one step: one path, one range, both differences
+            if rng.chance(1, 3) {
+                st.insert(p, Ent::File { content: content(rng), exec: !exec });
+                return "edit+chmod";
+            }
             st.insert(p, Ent::File { content: content(rng), exec });
             "edit"
         }
